@@ -8,11 +8,12 @@
 import PPV.Lemmas.Sums
 import PPV.Lemmas.KTac
 import PPV.Gen.Kernels
+import PPV.Gen.Components
 import Mathlib.Tactic.Positivity
 
 open Finset BigOperators
 namespace PPV.Props.C11
-open PPV.Lemmas PPV PPV.Gen PPV.Gen.Kernels
+open PPV.Lemmas PPV PPV.Gen PPV.Gen.Kernels PPV.Gen.Components
 
 /-- **duty of a lumped heat element.** For a flowing branch without length (heat exchanger, heat consumer:
     no loss to ambient, no temperature lift) the generated thermal residual vanishes exactly when the
@@ -54,6 +55,52 @@ theorem mf_dt_setpoint (br : BranchRow ℝ) (tin tout tnt cpn cpb amb dT : ℝ)
   have hne : cpb * |br.MDOTINIT| ≠ 0 := ne_of_gt (mul_pos hcp hm)
   have : cpb * |br.MDOTINIT| * dT = cpb * |br.MDOTINIT| * (tin - tout) := by rw [h]; ring
   exact (mul_left_cancel₀ hne this).symm
+
+
+/-! ### the duties the heat-consumer class derives (generated from `HeatConsumer.adaption_*`) -/
+
+/-- mode "mass flow and temperature drop": the duty written into `QEXT` is `c̄_p·ṁ·ΔT` -/
+theorem mf_dt_duty_generated (br : BranchRow ℝ) (nf nt : NodeRow ℝ) (cp dT tr : ℝ) :
+    (hcBeforeThermal br nf nt 1 cp dT tr).QEXT = cp * br.MDOTINIT * dT := by
+  simp only [hcBeforeThermal]
+  kunfold
+  try norm_num
+
+/-- mode "mass flow and return temperature": the duty is `c̄_p·ṁ·(T_in − T_return)`, `T_in` being the temperature of
+    the node the flow comes from (direction-corrected) -/
+theorem mf_tr_duty_generated (br : BranchRow ℝ) (nf nt : NodeRow ℝ) (cp dT tr : ℝ) :
+    (hcBeforeThermal br nf nt 2 cp dT tr).QEXT =
+      cp * br.MDOTINIT * ((if br.FROM_NODE_T_SWITCHED ≠ 0 then nt.TINIT else nf.TINIT) - tr) := by
+  simp only [hcBeforeThermal]
+  kunfold
+  try norm_num
+
+/-- every other mode keeps the duty it already has; and each row's duty depends on that row only (the generated
+    definition is per row — a construct coupling the rows, such as an `elif` between the mode blocks, is rejected by
+    the translator) -/
+theorem other_modes_keep_duty (br : BranchRow ℝ) (nf nt : NodeRow ℝ) (mode cp dT tr : ℝ) (h1 : mode ≠ 1) (h2 : mode ≠ 2) :
+    (hcBeforeThermal br nf nt mode cp dT tr).QEXT = br.QEXT := by
+  simp only [hcBeforeThermal]
+  kunfold
+  simp [h1, h2]
+
+/-- mode "heat and temperature drop": the mass flow written is `Q/(c̄_p·ΔT)` -/
+theorem qe_dt_mass_generated (br : BranchRow ℝ) (cp dT : ℝ) :
+    (hcBeforeHydraulic br 4 cp dT).MDOTINIT = br.QEXT / (cp * dT) := by
+  simp only [hcBeforeHydraulic]
+  kunfold
+
+/-- **set-point, code to result (MF_DT)**: with the duty written by the current class and a vanishing thermal residual,
+    a consumer with forward flow cools the fluid by exactly its `deltat_k` -/
+theorem mf_dt_setpoint_of_code (br : BranchRow ℝ) (nf nt : NodeRow ℝ) (tin tout tnt cpn cp amb dT tr : ℝ)
+    (hm : (1e-10 : ℝ) < br.MDOTINIT) (hL : br.LENGTH = 0) (hTL : br.TL = 0) (hcp : 0 < cp)
+    (hQ : br.QEXT = (hcBeforeThermal br nf nt 1 cp dT tr).QEXT)
+    (hres : (thermalBranchNp br tin tout tnt cpn cp amb).fb = 0) : tin - tout = dT := by
+  have hpos : 0 < br.MDOTINIT := lt_trans (by norm_num) hm
+  have habs : |br.MDOTINIT| = br.MDOTINIT := abs_of_pos hpos
+  refine mf_dt_setpoint br tin tout tnt cpn cp amb dT ?_ hL hTL hcp ?_ hres
+  · rw [sub_zero, abs_zero, mul_zero, add_zero, habs]; exact not_le.2 hm
+  · rw [hQ, mf_dt_duty_generated, habs]
 
 /-! ### energy closure of a loop -/
 
